@@ -241,20 +241,15 @@ def native_playback(scratch, name, harness_timeout=900):
            "--concrete-playback=inplace", "--harness-timeout", f"{int(harness_timeout)}s",
            "--target-dir", target, "--harness", name]
     rc, out, dt = run(cmd, cwd=scratch.repo, timeout=harness_timeout + 300)
-    m = re.search(r"(kani_concrete_playback_\w+)", out)
-    if not m:
-        # look into the harness copies
-        tn = None
-        hd = scratch.path("src", "verif_h")
-        for f in os.listdir(hd):
-            mm = re.search(r"fn (kani_concrete_playback_%s\w*)" % re.escape(name),
-                           open(os.path.join(hd, f)).read())
-            if mm:
-                tn = mm.group(1)
-        if not tn:
-            return {"reproduced": None, "note": "no playback test generated"}
-    else:
-        tn = m.group(1)
+    tn, src = None, None
+    hd = scratch.path("src", "verif_h")
+    for f in os.listdir(hd):
+        txt = open(os.path.join(hd, f)).read()
+        mm = re.search(r"(#\[test\]\s*fn (kani_concrete_playback_%s\w*)\(\) \{.*?\n\})" % re.escape(name), txt, re.S)
+        if mm:
+            tn, src = mm.group(2), mm.group(1)
+    if not tn:
+        return {"reproduced": None, "note": "no playback test generated", "tail": out[-800:]}
     # the repository's out-of-line test modules need dev-dependencies the scratch copy dropped
     for root, _d, files in os.walk(scratch.path("src")):
         for f in files:
@@ -269,7 +264,7 @@ def native_playback(scratch, name, harness_timeout=900):
     failed = bool(re.search(r"test result: FAILED|panicked at", out2))
     passed = bool(re.search(r"test result: ok\. [1-9]", out2))
     rep = True if failed else (False if passed else None)
-    return {"reproduced": rep, "test": tn, "profile": "dev", "tail": out2[-1500:]}
+    return {"reproduced": rep, "test": tn, "test_source": src, "profile": "dev", "tail": out2[-1500:]}
 
 
 def discover_loops(scratch, name):
